@@ -107,7 +107,8 @@ def run(chk, tier):
     q = mirq.BodyQ(b)
     rc = q.call_sites(r"CelCompiler::<'l>::reads_clock$")
     rr = q.call_sites(r"Interpreter::<'a>::run_raw$")
-    wc = q.call_sites(r"CompiledProg::with_const$")
+    # freeze sites: wherever check_for_const builds a constant node (with_const call or a NodeValue::ConstExpr aggregate)
+    wc = q.call_sites(r"CompiledProg::with_const$") + [(i, s_, "NodeValue::ConstExpr") for (i, a_, v_, s_) in q.aggregates(adt_suffix="compiled_prog::NodeValue") if v_ == "ConstExpr"]
     okc = len(rc) == 1 and len(rr) == 1 and len(wc) >= 1
     if okc:
         # reads_clock true edge must not reach with_const
